@@ -1,5 +1,6 @@
 import Cctp.Spec.Toy
 import Cctp.Lemmas.Shapes
+import Cctp.Native.Keccak
 /-
   C08 — deposits are accepted exactly under the documented preconditions.
 -/
@@ -135,5 +136,17 @@ example : ¬ Pre Toy.ext Toy.cfg Toy.st Toy.led Toy.alice (some 101) 0 (List.rep
   absurd ((Toy.isOk_iff _).mpr ((deposit_ok_iff _ _ _ _ _ _ _ _ _ _ toy_keccakLen).mpr h)) (by decide +kernel)
 example : Pre Toy.ext Toy.cfg Toy.st Toy.led Toy.alice (some 100) 0 (List.replicate 32 9) Toy.denom [] :=
   (deposit_ok_iff _ _ _ _ _ _ _ _ _ _ toy_keccakLen).mp ((Toy.isOk_iff _).mp (by decide +kernel))
+
+/-- the hypothesis `KeccakLen` is discharged for the executable instance the correspondence check runs: whatever the
+    other external functions are, an `Ext` whose hash is the model's own Keccak-256 has 32-byte digests. -/
+theorem native_keccakLen (ext : Ext) (h : ext.keccak256 = Native.keccak256) : KeccakLen ext := by
+  intro b; rw [h]; exact Native.keccak256_length b
+
+/-- … so for that instance the "exactly when" holds with no hypothesis about the hash left. -/
+theorem deposit_ok_iff_native (ext : Ext) (hnat : ext.keccak256 = Native.keccak256) (cfg : Cfg) (st : Store) (led : Ledger)
+    (f : Bytes) (amount : Option Int) (dest : Nat) (rcp tok caller : Bytes) :
+    (∃ o, depositForBurn ext cfg st led f amount dest rcp tok caller = .ok o) ↔
+      Pre ext cfg st led f amount dest rcp tok caller :=
+  deposit_ok_iff ext cfg st led f amount dest rcp tok caller (native_keccakLen ext hnat)
 
 end Cctp.C08
